@@ -256,7 +256,7 @@ Proof.
   - destruct (get_m s m) as [x|] eqn:Hx; auto. apply KN_finish_m; auto. exact (gk_get s m x H Hx).
   - destruct (get_m s m) as [x|] eqn:Hx; auto.
     pose proof (gk_get s m x H Hx) as Hg.
-    destruct (m_bad x).
+    destruct (nth (m_idx x) (m_bad x) false).
     + apply IH. apply KN_put_m; auto.
     + unfold try_start. destruct (closed s).
       * apply KN_finish_m; auto.
